@@ -774,6 +774,22 @@ fn gen_c17(seed: u64, rng: &mut Rng) -> Plan {
         p.ops.push(Op::HttpRawQuery { endpoint: *rng.pick(&endpoints), sql });
     }
     p.ops.push(Op::HttpColumns { table: "h".into(), pattern: rng.pick(&["", "i", "zz", "b"]).to_string() });
+    // --- several statements in one /multi_query_cols request (statements of different cost and
+    // with different column sets: response i must answer statement i)
+    for _ in 0..(1 + rng.below(3)) {
+        let pool = [
+            "SELECT id, big FROM \"h\" ORDER BY big DESC".to_string(),
+            "SELECT id FROM \"h\" LIMIT 1".to_string(),
+            "SELECT COUNT(1), SUM(g), MIN(big), MAX(big) FROM \"h\"".to_string(),
+            "SELECT g, id FROM \"h\" WHERE g > 100".to_string(),
+            "SELECT s, f, id FROM \"h\" ORDER BY id DESC LIMIT 3".to_string(),
+            "SELECT * FROM \"h\"".to_string(),
+            "SELECT id FROM \"h\" WHERE id < 0".to_string(),
+        ];
+        let k = 2 + rng.below(3) as usize;
+        let sqls: Vec<String> = (0..k).map(|_| rng.pick(&pool).clone()).collect();
+        p.ops.push(Op::HttpMulti { endpoint: *rng.pick(&[E::MultiJson, E::MultiBin, E::MultiBinXor]), sqls });
+    }
     // --- failing requests, each followed by a good one on the same endpoint
     let nf = 2 + rng.below(5);
     for _ in 0..nf {
